@@ -184,7 +184,10 @@ def run_shard(shard):
         return acc.result()
     seen_states = set()
     for z in shard["zones"]:
-        if z is None or isinstance(z, int):
+        if shard.get("edges"):
+            insts = seeds.calendar_edge_instants()
+            crossing = False
+        elif z is None or isinstance(z, int):
             insts = seeds.grid_instants(211)[:12] + [0, -1, 86399999999, 951782399999999]
             crossing = False
         else:
@@ -231,9 +234,17 @@ def plan(tier, seed):
     from .. import chain
     cs = chain.chain_seeds(seed, 3 if not thorough else 8)
     shards += [{"kind": "chains", "seeds": ch, "depth": 3} for ch in seeds.chunks(cs, 32)]
+    # calendar-edge receivers (29 February of every kind of leap year, year ends ...): add() goes through the
+    # month-length clamp of add_duration even for fixed-length amounts
+    ez = ["UTC", None, 19800, "America/New_York", "Europe/Paris", "Pacific/Apia"]
+    edges = [{"zones": [z], "thorough": thorough, "limit": 1, "seed": seed, "edges": True} for z in ez]
+    shards = edges + shards
     plans = [({"ext": 1, "tz": "sys"}, shards)]
     if thorough:
         plans.append(({"ext": 0, "tz": "pkg"}, shards))
+    else:
+        # the pure-Python helpers (is_leap, days_in_year ...) behind the same arithmetic
+        plans.append(({"ext": 0, "tz": "sys"}, edges + shards[len(edges):len(edges) + 2]))
     return plans
 
 
@@ -245,7 +256,7 @@ def evidence(m, tier, seed):
         "distinct_nontrivial": c["nontrivial"],
         "rule": "state = (zone, instant) with instants at P(t) around offset transitions taken from the tz data "
                 "(quick: 10 transitions per zone rotated by VERIF_SEED, thorough: all) plus a year grid, 5 fixed "
-                "offsets and naive values; every state x every amount of the carry-critical alphabet; non-trivial "
+                "offsets and naive values, and calendar-edge instants (28/29 February, 1 March, year ends of 11 kinds of year) in 6 zones under both helper back ends; every state x every amount of the carry-critical alphabet; non-trivial "
                 "= states adjacent to an offset transition",
         "exhaustive": True,
         "amount_alphabet_size": len(_amounts(False)),
